@@ -253,7 +253,35 @@ def component_corpus():
     return C
 
 
+def _deepen(c):
+    """thorough tier: one more symbolic value (U-mode) / tuple (L-mode) where the database stays small"""
+    import copy
+    import re
+    c = copy.copy(c)
+    if c.judge in ("lattice",):
+        return c
+    decls = re.findall(r"\.decl\s+([\w.]+)\s*\(([^)]*)\)", c.ref_text)
+    inputs = set(re.findall(r"\.input\s+([\w.]+)", c.ref_text))
+    ar = [len([x for x in a.split(",") if x.strip()]) for n, a in decls if n in inputs]
+    consts = len(set(re.findall(r"(?<![\w.])-?\d+(?![\w.])", c.ref_text.split(".output")[0] if False else "\n".join(l for l in c.ref_text.split("\n") if ":-" in l or (l.strip().endswith(".") and "(" in l and not l.startswith("."))))))
+    if c.mode == "U":
+        u = consts + c.m + 1
+        if sum(u ** a for a in ar) <= 60:
+            c.m += 1
+    else:
+        if c.n < 3 and sum(ar) * (c.n + 1) <= 12:
+            c.n += 1
+    return c
+
+
 def corpus(tier, extra=()):
+    cs = _corpus(tier, extra)
+    if tier == "thorough":
+        cs = [_deepen(c) for c in cs]
+    return cs
+
+
+def _corpus(tier, extra=()):
     cs = [c for c in base_corpus() if tier in c.tiers]
     fams = {"opt": opt_corpus, "magic": opt_corpus, "index": index_corpus, "choice": contract_corpus, "subsume": contract_corpus,
             "limit": contract_corpus, "syntax": syntax_corpus, "component": component_corpus, "lattice": lattice_corpus}
